@@ -259,11 +259,25 @@ class Check:
             json.dump(ctx, f, ensure_ascii=False)
         return ["-ctx", path]
 
-    def replay(self, cases, args=None, race=False, timeout=1800, double_check=True, env=None):
+    def harness_procs(self, args, cases, procs, timeout=1800):
+        """Run the cases in `procs` harness PROCESSES (each single-threaded): for code under test
+        with process-wide state (the stepper)."""
+        import concurrent.futures
+        self.build_harness()
+        chunks = [cases[i::procs] for i in range(procs)]
+        chunks = [c for c in chunks if c]
+        with concurrent.futures.ThreadPoolExecutor(max_workers=len(chunks)) as ex:
+            outs = list(ex.map(lambda ch: self.harness(args + ["-workers", "1"], ch, timeout=timeout), chunks))
+        return [v for o in outs for v in o]
+
+    def replay(self, cases, args=None, race=False, timeout=1800, double_check=True, env=None, procs=0):
         """Direction A: run cases on the real code; handle verdicts."""
         if not cases:
             return []
-        verdicts = self.harness(["replay"] + (args or []), cases, race=race, timeout=timeout, env=env)
+        if procs:
+            verdicts = self.harness_procs(["replay"] + (args or []), cases, procs, timeout=timeout)
+        else:
+            verdicts = self.harness(["replay"] + (args or []), cases, race=race, timeout=timeout, env=env)
         if len(verdicts) != len(cases):
             raise InfraError("harness returned %d verdicts for %d cases" % (len(verdicts), len(cases)))
         byid = {c["id"]: c for c in cases}
@@ -282,8 +296,11 @@ class Check:
                 bad.append(v)
         if bad and double_check:
             # deterministic cases are executed a second time before being reported
-            again = self.harness(["replay"] + (args or []), [byid[v["id"]] for v in bad],
-                                 race=race, timeout=timeout, env=env)
+            if procs:
+                again = self.harness_procs(["replay"] + (args or []), [byid[v["id"]] for v in bad], procs, timeout=timeout)
+            else:
+                again = self.harness(["replay"] + (args or []), [byid[v["id"]] for v in bad],
+                                     race=race, timeout=timeout, env=env)
             still = {a["id"]: a for a in again if a.get("verdict") not in ("ok", "abstain", "skip")}
             flaky = [v for v in bad if v["id"] not in still]
             if flaky:
